@@ -111,6 +111,13 @@ func (fr *frame) invoke(st *PState, c *ssa.CallCommon, recv Val, args []Val, k f
 		fr.callFunction(st, qname, f, fsig, append([]Val{recvT}, args...), k)
 		return
 	}
+	// a contract stated on the interface method itself (external keepers: bank, account, ...)
+	if ct, ok := ex.CS.ByFunc["("+key+")."+m]; ok {
+		recvT := ex.reify(st, recv, c.Value.Type())
+		// the signature of an interface method has no receiver: name the arguments by position
+		fr.applyContract(st, ct, withRecv(sig, c.Value.Type()), nil, append([]Val{recvT}, args...), k)
+		return
+	}
 	fr.havocCall(st, fmt.Sprintf("invoke %s.%s", ShortName(key), m), sig, append([]Val{recv}, args...), k)
 }
 
@@ -126,12 +133,12 @@ func (ex *Exec) fullKey(v *ViewVal, key T) T {
 
 func (st *PState) kvGet(v *ViewVal, key T) T {
 	state := Select(st.kv, v.Cell, SState)
-	return Select(state, App("SK", "mkSK", v.Store, st.ex.fullKey(v, key)), SBytes)
+	return stGet(state, v.Store, st.ex.fullKey(v, key))
 }
 
 func (st *PState) kvSet(v *ViewVal, key T, val T) {
 	state := Select(st.kv, v.Cell, SState)
-	st.kv = st.Name("kv", Store(st.kv, v.Cell, Store(state, App("SK", "mkSK", v.Store, st.ex.fullKey(v, key)), val)))
+	st.kv = st.Name("kv", Store(st.kv, v.Cell, stSet(state, v.Store, st.ex.fullKey(v, key), val)))
 }
 
 var bnilT = T{S: "bnil", Sort: SBytes}
@@ -401,4 +408,10 @@ func (fr *frame) builtin(st *PState, b *ssa.Builtin, c *ssa.CallCommon, site ssa
 	_ = ex
 	bail("builtin %s", b.Name())
 	return nil
+}
+
+// withRecv adds a receiver to an interface method signature (so that parameter naming lines up).
+func withRecv(sig *types.Signature, recvT types.Type) *types.Signature {
+	recv := types.NewVar(0, nil, "recv", recvT)
+	return types.NewSignatureType(recv, nil, nil, sig.Params(), sig.Results(), sig.Variadic())
 }
